@@ -310,6 +310,93 @@ def run(prog, rep):
     rep.ob("C16.5", gb, "boolean", okb, "the boolean getter recognises true/TRUE/false/FALSE, then a positive number" if okb else "the boolean getter's literals are %s" % lits, gb.loc[0])
     rep.floor("C16.5", 3)
 
+    # ---- C16.6 grammar table ------------------------------------------------------------------------
+    rep.rule("C16.6", "grammar table: the line patterns are exactly the documented ones ([name] header; key = \"v\", key = 'v', key = v up to ; or #), tried in that order with the "
+                      "documented conversion counts, and the header pattern is applied only to a line whose first byte is '[' and whose last byte is ']'")
+    GRAMMAR = [("header", "[%[^]]", 1), ("double-quoted", "%[^=] = \"%[^\"]\"", 2), ("single-quoted", "%[^=] = '%[^']'", 2), ("plain", "%[^=] = %[^;#]", 2)]
+    sc = []
+    for b, i, c in ps.calls():
+        if c.get("callee") in ("sscanf", "__isoc99_sscanf"):
+            fmt = strip_casts(c["args"][1])
+            fs = fmt.get("v") if fmt is not None and fmt["k"] == "str" else None
+            want = None
+            for b2, i2, n2 in ps.nodes(elsewhere=True):
+                if n2["k"] == "bin" and n2["op"] == "==" and strip_casts(n2["l"]) is c:
+                    want = cv(n2["r"])
+            sc.append((b, i, c, re.sub(r"\s+", " ", fs or ""), want))
+    sc.sort(key=lambda t: (line(t[2]), t[2]["loc"][1]))
+    okt = len(sc) == len(GRAMMAR)
+    msg = "the parser applies %d line patterns, the documented grammar has %d" % (len(sc), len(GRAMMAR))
+    if okt:
+        for (b, i, c, fs, want), (nm, gf, gn) in zip(sc, GRAMMAR):
+            if fs != gf or want != gn:
+                okt, msg = False, "line %d: the %s pattern is \"%s\" == %s, the documented grammar is \"%s\" == %d" % (line(c), nm, fs, want, gf, gn)
+                break
+    if okt:
+        # order: the false edge of each pattern's test leads to the next pattern
+        for k in range(1, len(sc) - 1):
+            blk = sc[k][0]
+            nxt = [to for (to, on) in blk.succs if on == "false"]
+            found = None
+            seen, work = set(), list(nxt)
+            while work and found is None:
+                x = work.pop(0)
+                if x in seen:
+                    continue
+                seen.add(x)
+                for (b2, i2, c2, _, _) in sc:
+                    if b2.id == x:
+                        found = c2
+                        break
+                if found is None:
+                    work.extend(to for (to, on) in ps.blocks[x].succs)
+            if found is not sc[k + 1][2]:
+                okt, msg = False, "line %d: when the %s pattern does not match, the next pattern tried is not the %s one" % (line(sc[k][2]), GRAMMAR[k][0], GRAMMAR[k + 1][0])
+    rep.ob("C16.6", ps, "patterns", okt, "the four line patterns, their order and conversion counts are the documented grammar" if okt else msg, sc[0][2] if sc else ps.loc[0])
+    if sc:
+        hb, hi, hc = sc[0][0], sc[0][1], sc[0][2]
+        lv = root_var(hc["args"][0])
+
+        def guard_kind(e):
+            e = strip_casts(e)
+            if e is None or e["k"] != "bin" or e["op"] != "==" or cv(e["r"]) not in (91, 93):
+                return None
+            l = strip_casts(e["l"])
+            if l is None or l["k"] != "idx" or root_var(l["base"]) != lv:
+                return None
+            if cv(l["i"]) == 0 and cv(e["r"]) == 91:
+                return "first"
+            ix = strip_casts(l["i"])
+            if ix is not None and ix["k"] == "bin" and ix["op"] == "-" and cv(ix["r"]) == 1 and cv(e["r"]) == 93:
+                a = strip_casts(ix["l"])
+                if a is not None and a["k"] == "call" and a.get("callee") in ("strlen", "__builtin_strlen") and root_var(a["args"][0]) == lv:
+                    return "last"
+            return None
+
+        def reachable_without(edge):
+            seen, work = set(), [ps.entry]
+            while work:
+                x = work.pop()
+                if x in seen:
+                    continue
+                seen.add(x)
+                for (to, on) in ps.blocks[x].succs:
+                    if (x, to) != edge:
+                        work.append(to)
+            return seen
+        have = {}
+        for blk in ps.blocks.values():
+            c_ = blk.cond
+            gk = guard_kind(c_) if c_ is not None else None
+            if gk:
+                tt = [to for (to, on) in blk.succs if on == "true"]
+                if tt and hb.id not in reachable_without((blk.id, tt[0])):
+                    have[gk] = line(c_)
+        for gk, what in (("first", "first byte is '['"), ("last", "last byte is ']'")):
+            rep.ob("C16.6", ps, "header:" + gk, gk in have, "the header pattern is applied only when the line's %s (line %s)" % (what, have.get(gk)) if gk in have else
+                   "line %d: the header pattern is applied without testing that the line's %s: lines such as `[x]y = v` or `[sec] ; note` open a section and swallow the keys that follow" % (line(hc), what), hc)
+    rep.floor("C16.6", 3)
+
 
 # generic robustness battery: renaming every local/parameter in these files must not change any verdict
 RENAME_LOCALS = ['src/pinifile.c']
@@ -332,6 +419,19 @@ SELFTEST = [
          old="\t\tp_free (dst_line);\n\t\tmemset (src_line, 0, sizeof (src_line));", new="\t\tmemset (src_line, 0, sizeof (src_line));"),
     dict(id="int-getter-base0", file="src/pinifile.c", expect="C16.5",
          old="\tret = atoi (val);", new="\tret = (pint) strtol (val, NULL, 0);"),
+    dict(id="header-sscanf-only", file="src/pinifile.c", expect="C16.6",
+         old="\t\tif (dst_line[0] == '[' && dst_line[strlen (dst_line) - 1] == ']' &&\n\t\t    sscanf (dst_line, \"[%[^]]\", key) == 1) {",
+         new="\t\tif (sscanf (dst_line, \"[%[^]]]\", key) == 1) {"),
+    dict(id="header-last-byte-untested", file="src/pinifile.c", expect="C16.6",
+         old="\t\tif (dst_line[0] == '[' && dst_line[strlen (dst_line) - 1] == ']' &&\n\t\t    sscanf", new="\t\tif (dst_line[0] == '[' &&\n\t\t    sscanf"),
+    dict(id="plain-pattern-first", file="src/pinifile.c", expect="C16.6",
+         old="\t\t} else if (sscanf (dst_line, \"%[^=] = \\\"%[^\\\"]\\\"\", key, value) == 2 ||\n\t\t\t   sscanf (dst_line, \"%[^=] = '%[^\\']'\", key, value) == 2 ||\n\t\t\t   sscanf (dst_line, \"%[^=] = %[^;#]\", key, value) == 2) {",
+         new="\t\t} else if (sscanf (dst_line, \"%[^=] = %[^;#]\", key, value) == 2 ||\n\t\t\t   sscanf (dst_line, \"%[^=] = \\\"%[^\\\"]\\\"\", key, value) == 2 ||\n\t\t\t   sscanf (dst_line, \"%[^=] = '%[^\\']'\", key, value) == 2) {"),
+    dict(id="plain-pattern-hash-only", file="src/pinifile.c", expect="C16.6",
+         old="%[^=] = %[^;#]", new="%[^=] = %[^#]"),
+    dict(id="header-guard-nested-neutral", file="src/pinifile.c", expect=None,
+         old="\t\tif (dst_line[0] == '[' && dst_line[strlen (dst_line) - 1] == ']' &&\n\t\t    sscanf (dst_line, \"[%[^]]\", key) == 1) {",
+         new="\t\tif (dst_line[strlen (dst_line) - 1] == ']' && dst_line[0] == '[' &&\n\t\t    sscanf (dst_line, \"[%[^]]\", key) == 1) {"),
     dict(id="int-getter-strtol10-neutral", file="src/pinifile.c", expect=None,
          old="\tret = atoi (val);", new="\tret = (pint) strtol (val, NULL, 10);"),
 ]
